@@ -24,7 +24,20 @@ from concurrent.futures import ThreadPoolExecutor
 VERIF = os.path.dirname(os.path.dirname(os.path.abspath(__file__)))
 COQ = os.path.join(VERIF, "coq")
 HARNESS = os.path.join(VERIF, "harness")
-REPO = "/repo"
+REPO = os.environ.get("VERIF_REPO", "/repo")     # mutation drills only: a scratch worktree instead of /repo
+TAG = os.environ.get("VERIF_TAG", "")            # mutation drills only: suffix that keeps concurrent drills apart
+OUT = os.environ.get("VERIF_OUT", VERIF)         # mutation drills only: where evidence/ and replays/ go
+
+
+def modfile_args(bdir):
+    """[] for /repo (harness/go.mod replaces the module onto /repo); for a drill on another tree, a
+    generated go.mod next to the build that replaces the module onto that tree instead."""
+    if REPO == "/repo":
+        return []
+    mod = open(os.path.join(HARNESS, "go.mod")).read().replace("=> /repo", "=> " + REPO)
+    open(os.path.join(bdir, "go.mod"), "w").write(mod)
+    shutil.copy(os.path.join(REPO, "go.sum"), os.path.join(bdir, "go.sum"))
+    return ["-modfile=" + os.path.join(bdir, "go.mod")]
 
 GOENV = dict(os.environ, GOFLAGS="-mod=mod", GOPROXY="off", GOSUMDB="off", GOTOOLCHAIN="local",
              CGO_ENABLED=os.environ.get("CGO_ENABLED", "0"))
@@ -225,13 +238,15 @@ def check_obligations(rep, pid, extra_targets=()):
 
 # ---------------------------------------------------------------- step 3
 def build_harness(rep, pid, tier, cmds=("seqdiff",)):
-    bdir = os.path.join(HARNESS, ".build", "%s-%s" % (pid, tier))
+    bdir = os.path.join(HARNESS, ".build", "%s-%s%s" % (pid, tier, TAG))
     shutil.rmtree(bdir, ignore_errors=True)
     os.makedirs(bdir)
     with Lock(os.path.join(HARNESS, ".lock")):
-        shutil.copy(os.path.join(REPO, "go.sum"), os.path.join(HARNESS, "go.sum"))
+        if REPO == "/repo":
+            shutil.copy(os.path.join(REPO, "go.sum"), os.path.join(HARNESS, "go.sum"))
+        mf = modfile_args(bdir)
         for c in cmds:
-            rc, out = run(["go", "build", "-o", os.path.join(bdir, c), "./cmd/" + c], cwd=HARNESS, env=GOENV, timeout=900)
+            rc, out = run(["go", "build"] + mf + ["-o", os.path.join(bdir, c), "./cmd/" + c], cwd=HARNESS, env=GOENV, timeout=900)
             if rc != 0:
                 rep.broken.append(("correspondence", "harness does not build against /repo's working tree:\n" + out[-3000:]))
                 rep.say("harness build FAILED:\n" + out[-1500:])
@@ -268,13 +283,14 @@ def make_overlay(bdir):
 
 
 def build_schedrun(rep, pid, tier):
-    bdir = os.path.join(HARNESS, ".build", "%s-%s-l2" % (pid, tier))
+    bdir = os.path.join(HARNESS, ".build", "%s-%s%s-l2" % (pid, tier, TAG))
     shutil.rmtree(bdir, ignore_errors=True)
     os.makedirs(bdir)
     ovpath, files = make_overlay(bdir)
     with Lock(os.path.join(HARNESS, ".lock")):
-        shutil.copy(os.path.join(REPO, "go.sum"), os.path.join(HARNESS, "go.sum"))
-        rc, out = run(["go", "build", "-overlay", ovpath, "-o", os.path.join(bdir, "schedrun"), "./cmd/schedrun"], cwd=HARNESS, env=GOENV, timeout=900)
+        if REPO == "/repo":
+            shutil.copy(os.path.join(REPO, "go.sum"), os.path.join(HARNESS, "go.sum"))
+        rc, out = run(["go", "build"] + modfile_args(bdir) + ["-overlay", ovpath, "-o", os.path.join(bdir, "schedrun"), "./cmd/schedrun"], cwd=HARNESS, env=GOENV, timeout=900)
     if rc != 0:
         rep.broken.append(("correspondence", "level-2 harness does not build against /repo's working tree (overlay):\n" + out[-3000:]))
         rep.say("schedrun build FAILED:\n" + out[-1500:])
@@ -339,7 +355,7 @@ def schedrun_tie(rep, bdir, gdir, scenario, n, shards, clause_prefixes=None):
 
 
 def gen_dir(pid, tier):
-    d = os.path.join(COQ, "gen", "%s-%s" % (pid, tier))
+    d = os.path.join(COQ, "gen", "%s-%s%s" % (pid, tier, TAG))
     shutil.rmtree(d, ignore_errors=True)
     os.makedirs(d)
     return d
@@ -438,15 +454,15 @@ def load_known():
 
 # ---------------------------------------------------------------- reporting
 def finish(rep, level="proof", level_assumptions=()):
-    os.makedirs(os.path.join(VERIF, "evidence"), exist_ok=True)
-    os.makedirs(os.path.join(VERIF, "replays"), exist_ok=True)
+    os.makedirs(os.path.join(OUT, "evidence"), exist_ok=True)
+    os.makedirs(os.path.join(OUT, "replays"), exist_ok=True)
     exit_code = 0
     for k in rep.known:
         print("KNOWN-FINDING: property=%s %s" % (rep.pid, k))
     replay_path = None
     if rep.violations:
         v = rep.violations[0]
-        replay_path = os.path.join(VERIF, "replays", "%s-%s-%d.json" % (rep.pid, rep.tier, rep.seed))
+        replay_path = os.path.join(OUT, "replays", "%s-%s-%d.json" % (rep.pid, rep.tier, rep.seed))
         json.dump({"property": rep.pid, "kind": "monitor", "seed": rep.seed, "tier": rep.tier,
                    "family": v.get("family"), "clause": v["clause"], "detail": v["detail"], "at_op": v.get("at_op"),
                    "case": v.get("case"), "all_violations": [{k: x[k] for k in ("clause", "detail")} for x in rep.violations[:20]],
@@ -455,7 +471,7 @@ def finish(rep, level="proof", level_assumptions=()):
         print("VIOLATION property=%s replay=%s" % (rep.pid, replay_path))
         exit_code = 1
     elif rep.broken:
-        replay_path = os.path.join(VERIF, "replays", "%s-%s-%d.json" % (rep.pid, rep.tier, rep.seed))
+        replay_path = os.path.join(OUT, "replays", "%s-%s-%d.json" % (rep.pid, rep.tier, rep.seed))
         kind = rep.broken[0][0]
         json.dump({"property": rep.pid, "kind": kind, "seed": rep.seed, "tier": rep.tier,
                    "no_longer_checks": [{"what": b[0], "detail": b[1][:4000]} for b in rep.broken[:10]],
@@ -483,7 +499,7 @@ def finish(rep, level="proof", level_assumptions=()):
     if cov["evaluations"] == 0:
         cov.pop("evaluations")
         cov.pop("distinct_nontrivial")
-    json.dump(ev, open(os.path.join(VERIF, "evidence", "%s.json" % rep.pid), "w"), indent=1)
+    json.dump(ev, open(os.path.join(OUT, "evidence", "%s.json" % rep.pid), "w"), indent=1)
     print("%s %s: %s in %.1fs (obligations %d/%d, cases %s, distinct non-trivial %s)" % (
         rep.pid, rep.tier, "OK" if exit_code == 0 else "FAILED", time.time() - rep.t0, cov["discharged"], cov["obligations"],
         cov.get("evaluations", 0), cov.get("distinct_nontrivial", 0)))
